@@ -30,25 +30,27 @@ Record conn := mkConn {
   unacked : bool;    (* bytes written but not yet flushed to the network *)
   disc : bool;       (* TCP disconnected() has been emitted: both sides are closed *)
   wrote : bool;
-  payload : Z        (* file bytes handed to the transport *)
+  payload : Z;       (* file bytes handed to the transport *)
+  owned : bool       (* still a child of the server (ProxyHandler moves the socket under itself) *)
 }.
 
-Definition conn0 : conn := mkConn true true 0 0 false false CNone 0 true false false false false 0.
+Definition conn0 : conn := mkConn true true 0 0 false false CNone 0 true false false false false 0 true.
 
-Definition set_h v c := mkConn v (hopen c) (sent c) (got c) (routed c) (served c) (cp c) (cleft c) (topen c) (tclosing c) (unacked c) (disc c) (wrote c) (payload c).
-Definition set_hopen v c := mkConn (h c) v (sent c) (got c) (routed c) (served c) (cp c) (cleft c) (topen c) (tclosing c) (unacked c) (disc c) (wrote c) (payload c).
-Definition set_sent v c := mkConn (h c) (hopen c) v (got c) (routed c) (served c) (cp c) (cleft c) (topen c) (tclosing c) (unacked c) (disc c) (wrote c) (payload c).
-Definition set_got v c := mkConn (h c) (hopen c) (sent c) v (routed c) (served c) (cp c) (cleft c) (topen c) (tclosing c) (unacked c) (disc c) (wrote c) (payload c).
-Definition set_routed v c := mkConn (h c) (hopen c) (sent c) (got c) v (served c) (cp c) (cleft c) (topen c) (tclosing c) (unacked c) (disc c) (wrote c) (payload c).
-Definition set_served v c := mkConn (h c) (hopen c) (sent c) (got c) (routed c) v (cp c) (cleft c) (topen c) (tclosing c) (unacked c) (disc c) (wrote c) (payload c).
-Definition set_cp v c := mkConn (h c) (hopen c) (sent c) (got c) (routed c) (served c) v (cleft c) (topen c) (tclosing c) (unacked c) (disc c) (wrote c) (payload c).
-Definition set_cleft v c := mkConn (h c) (hopen c) (sent c) (got c) (routed c) (served c) (cp c) v (topen c) (tclosing c) (unacked c) (disc c) (wrote c) (payload c).
-Definition set_topen v c := mkConn (h c) (hopen c) (sent c) (got c) (routed c) (served c) (cp c) (cleft c) v (tclosing c) (unacked c) (disc c) (wrote c) (payload c).
-Definition set_tclosing v c := mkConn (h c) (hopen c) (sent c) (got c) (routed c) (served c) (cp c) (cleft c) (topen c) v (unacked c) (disc c) (wrote c) (payload c).
-Definition set_unacked v c := mkConn (h c) (hopen c) (sent c) (got c) (routed c) (served c) (cp c) (cleft c) (topen c) (tclosing c) v (disc c) (wrote c) (payload c).
-Definition set_disc v c := mkConn (h c) (hopen c) (sent c) (got c) (routed c) (served c) (cp c) (cleft c) (topen c) (tclosing c) (unacked c) v (wrote c) (payload c).
-Definition set_wrote v c := mkConn (h c) (hopen c) (sent c) (got c) (routed c) (served c) (cp c) (cleft c) (topen c) (tclosing c) (unacked c) (disc c) v (payload c).
-Definition set_payload v c := mkConn (h c) (hopen c) (sent c) (got c) (routed c) (served c) (cp c) (cleft c) (topen c) (tclosing c) (unacked c) (disc c) (wrote c) v.
+Definition set_h v c := mkConn v (hopen c) (sent c) (got c) (routed c) (served c) (cp c) (cleft c) (topen c) (tclosing c) (unacked c) (disc c) (wrote c) (payload c) (owned c).
+Definition set_hopen v c := mkConn (h c) v (sent c) (got c) (routed c) (served c) (cp c) (cleft c) (topen c) (tclosing c) (unacked c) (disc c) (wrote c) (payload c) (owned c).
+Definition set_sent v c := mkConn (h c) (hopen c) v (got c) (routed c) (served c) (cp c) (cleft c) (topen c) (tclosing c) (unacked c) (disc c) (wrote c) (payload c) (owned c).
+Definition set_got v c := mkConn (h c) (hopen c) (sent c) v (routed c) (served c) (cp c) (cleft c) (topen c) (tclosing c) (unacked c) (disc c) (wrote c) (payload c) (owned c).
+Definition set_routed v c := mkConn (h c) (hopen c) (sent c) (got c) v (served c) (cp c) (cleft c) (topen c) (tclosing c) (unacked c) (disc c) (wrote c) (payload c) (owned c).
+Definition set_served v c := mkConn (h c) (hopen c) (sent c) (got c) (routed c) v (cp c) (cleft c) (topen c) (tclosing c) (unacked c) (disc c) (wrote c) (payload c) (owned c).
+Definition set_cp v c := mkConn (h c) (hopen c) (sent c) (got c) (routed c) (served c) v (cleft c) (topen c) (tclosing c) (unacked c) (disc c) (wrote c) (payload c) (owned c).
+Definition set_cleft v c := mkConn (h c) (hopen c) (sent c) (got c) (routed c) (served c) (cp c) v (topen c) (tclosing c) (unacked c) (disc c) (wrote c) (payload c) (owned c).
+Definition set_topen v c := mkConn (h c) (hopen c) (sent c) (got c) (routed c) (served c) (cp c) (cleft c) v (tclosing c) (unacked c) (disc c) (wrote c) (payload c) (owned c).
+Definition set_tclosing v c := mkConn (h c) (hopen c) (sent c) (got c) (routed c) (served c) (cp c) (cleft c) (topen c) v (unacked c) (disc c) (wrote c) (payload c) (owned c).
+Definition set_unacked v c := mkConn (h c) (hopen c) (sent c) (got c) (routed c) (served c) (cp c) (cleft c) (topen c) (tclosing c) v (disc c) (wrote c) (payload c) (owned c).
+Definition set_disc v c := mkConn (h c) (hopen c) (sent c) (got c) (routed c) (served c) (cp c) (cleft c) (topen c) (tclosing c) (unacked c) v (wrote c) (payload c) (owned c).
+Definition set_wrote v c := mkConn (h c) (hopen c) (sent c) (got c) (routed c) (served c) (cp c) (cleft c) (topen c) (tclosing c) (unacked c) (disc c) v (payload c) (owned c).
+Definition set_payload v c := mkConn (h c) (hopen c) (sent c) (got c) (routed c) (served c) (cp c) (cleft c) (topen c) (tclosing c) (unacked c) (disc c) (wrote c) v (owned c).
+Definition set_owned v c := mkConn (h c) (hopen c) (sent c) (got c) (routed c) (served c) (cp c) (cleft c) (topen c) (tclosing c) (unacked c) (disc c) (wrote c) (payload c) v.
 
 (* posted events *)
 Inductive ev := EvNext (i : nat) | EvDelH (i : nat) | EvDelC (i : nat).
@@ -63,7 +65,8 @@ Definition is_del (e : ev) : bool := match e with EvNext _ => false | _ => true 
 Definition enq (e : ev) (q : list ev) : list ev := if existsb (ev_eqb e) q then q else q ++ [e].
 
 Record cfg := mkCfg {
-  kind : Z;          (* 0 default handler, 1 filesystem handler, 2 slot waiting for the body, 3 passive handler *)
+  kind : Z;          (* 0 default handler, 1 filesystem handler, 2 slot waiting for the body, 3 passive handler,
+                        4 handler that takes the socket over as its own child (as ProxyHandler does) *)
   fsize : Z;
   hlen : Z;          (* length of the request head including the blank line *)
   total : Z;         (* head + declared body *)
@@ -143,7 +146,8 @@ Definition route (g : cfg) (i : nat) (c : conn) (q : list ev) : option (conn * l
     Some (set_unacked true (set_wrote true (set_cleft (fsize g) (set_cp CRun c))), q ++ [EvNext i])
   else if kind g =? 2 then
     if total g <=? got c then respond_close g i (set_served true c) q else Some (c, q)
-  else Some (set_unacked true (set_wrote true c), q).
+  else if kind g =? 3 then Some (set_unacked true (set_wrote true c), q)
+  else Some (set_owned false c, q).          (* ProxyHandler::process: socket->setParent(handler) *)
 
 Definition feed (g : cfg) (i : nat) (n : Z) (c : conn) (q : list ev) : option (conn * list ev) :=
   if negb (h c && topen c) then Some (c, q) else
@@ -186,8 +190,6 @@ Definition next_block (g : cfg) (i : nat) (c : conn) (q : list ev) : option (con
   | _ => Some (c, q)
   end.
 
-Definition remove_ev (e : ev) (q : list ev) : list ev := filter (fun x => negb (ev_eqb e x)) q.
-
 Definition on_conn (w : world) (i : nat) (f : conn -> list ev -> option (conn * list ev)) : option world :=
   match nth_error (conns w) i with
   | None => Some w
@@ -221,12 +223,13 @@ Definition turn (g : cfg) (w : world) : option world :=
   | Some w1 => deliver_all g (mkWorld (srv w1) (conns w1) []) (queue w1)
   end.
 
-(* delete server: every HTTP socket that still exists is destroyed as a child; its pending deletion goes with it *)
+(* delete server: every HTTP socket that still exists and is still its child is destroyed (a deferred deletion still
+   posted for it finds nothing to do) *)
 Fixpoint destroy_from (g : cfg) (i : nat) (cs : list conn) (q : list ev) : option (list conn * list ev) :=
   match cs with
   | [] => Some ([], q)
   | c :: r =>
-      match (if h c then delete_h g i c (remove_ev (EvDelH i) q) else Some (c, q)) with
+      match (if h c && owned c then delete_h g i c q else Some (c, q)) with
       | None => None
       | Some (c', q') =>
           match destroy_from g (S i) r q' with
@@ -258,7 +261,7 @@ Definition lstep (g : cfg) (w : world) (o : lop) : option world :=
 (* observation after each operation *)
 Definition live_copiers (w : world) : Z := Z.of_nat (length (filter copier_alive (conns w))).
 Definition obs_conn (c : conn) : value :=
-  VL [vbool (h c); vbool (disc c); vbool (topen c); vbool (wrote c); VI (payload c)].
+  VL [vbool (h c); vbool (disc c); vbool (topen c); vbool (wrote c); VI (payload c); vbool (negb (h c) || owned c)].
 Definition obs_world (w : world) : value :=
   VL [VL (map obs_conn (conns w)); VI (live_copiers w); VI (live_copiers w)].
 
@@ -316,7 +319,7 @@ Definition run_lifed (c : value) : value :=
   | VL [VI k; VI fs; VB req; VI clen; VL ops] =>
       match mk_cfg k fs req clen, dec_lops ops with
       | Some g, Some os =>
-          if (0 <=? k) && (k <=? 3) && (0 <=? fs) && (0 <=? clen) && (hlen g + clen =? rlen g) && lops_ok true 0 os
+          if (0 <=? k) && (k <=? 4) && (0 <=? fs) && (0 <=? clen) && (hlen g + clen =? rlen g) && lops_ok true 0 os
           then VL (run_lops g world0 os) else verr
       | _, _ => verr
       end
